@@ -30,7 +30,7 @@ theorem blocks_mono (p q : Pos → Dom → Bool) (h : ∀ pos n, p pos n = true 
           · exact List.Sublist.refl _
           · split
             · exact List.Sublist.refl _
-            · exact blocksL_mono p q h w kids _ lc
+            · exact blocksM_mono p q h w kids _ lc []
           · exact blocksL_mono p q h w kids _ _
           · exact List.Sublist.append (List.Sublist.refl _) (blocksLi_mono p q h w kids _ _)
           · exact List.Sublist.refl _
@@ -53,6 +53,16 @@ theorem blocksLi_mono (p q : Pos → Dom → Bool) (h : ∀ pos n, p pos n = tru
       split
       · exact blocks_mono p q h w k kp lc
       · exact List.Sublist.refl _
+theorem blocksM_mono (p q : Pos → Dom → Bool) (h : ∀ pos n, p pos n = true → q pos n = true) (w : Bool) :
+    ∀ (ts : List Dom) (kp : Pos) (lc : LCB) (run : Str),
+      (blocksM q w kp lc ts run).Sublist (blocksM p w kp lc ts run)
+  | [], kp, lc, run => by simp [blocksM]
+  | k :: ks, kp, lc, run => by
+      simp only [blocksM]
+      split
+      · exact blocksM_mono p q h w ks kp lc _
+      · exact List.Sublist.append (List.Sublist.append (List.Sublist.refl _) (blocks_mono p q h w k kp lc))
+          (blocksM_mono p q h w ks kp lc [])
 end
 
 /-! ### the traversal refines `blocks` -/
@@ -112,6 +122,13 @@ theorem refinesB_flush_emit (s : St) (h : s.ok) (e : Element) : RefinesB s ((flu
      have := flushList_ok s h
      simp only [St.emit] at hi ⊢
      exact this hi⟩
+
+theorem emitRun_refinesB (run : Str) (s : St) (h : s.ok) : RefinesB s (emitRun run s) (runBlocks run) := by
+  unfold emitRun runBlocks
+  split
+  · have := refinesB_flush_emit s h (.para (trim run))
+    simpa [Element.blocks] using this
+  · exact RefinesB.rfl' s h
 
 theorem liHead_refinesB (kids : List Dom) (s : St) (hin : s.inList = true) :
     (liHead kids s).flatB = s.flatB ++
@@ -212,7 +229,7 @@ theorem trav_refinesB (p : Pos → Dom → Bool) (w : Bool) :
               have := h1.trans (refinesB_flush_emit _ h1.ok (.para (trim (getTextContent (.elem tag attrs kids)))))
               simpa [Element.blocks] using this
             · simp only [hcnd, if_false, Bool.false_eq_true]
-              have h2 := travL_refinesB p w kids (pos.kid w tag) _ h1.ok
+              have h2 := travM_refinesB p w kids (pos.kid w tag) [] _ h1.ok
               rw [h1.lc] at h2
               simpa using h1.trans h2
           | list ord =>
@@ -341,6 +358,22 @@ theorem travLi_refinesB (p : Pos → Dom → Bool) (w : Bool) :
         exact h1.trans h2
       · simp only [hk, if_false, Bool.false_eq_true, List.nil_append]
         exact travLi_refinesB p w ks kp s h
+theorem travM_refinesB (p : Pos → Dom → Bool) (w : Bool) :
+    ∀ (ts : List Dom) (kp : Pos) (run : Str) (s : St), s.ok →
+      RefinesB s (travM p w kp ts run s) (blocksM p w kp s.lcB ts run)
+  | [], kp, run, s, h => by simp only [travM, blocksM]; exact emitRun_refinesB run s h
+  | k :: ks, kp, run, s, h => by
+      simp only [travM, blocksM]
+      by_cases hk : isInline k = true
+      · simp only [hk, if_true]
+        exact travM_refinesB p w ks kp _ s h
+      · simp only [hk, if_false, Bool.false_eq_true]
+        have h0 := emitRun_refinesB run s h
+        have h1 := trav_refinesB p w k kp _ h0.ok
+        rw [h0.lc] at h1
+        have h2 := travM_refinesB p w ks kp [] _ h1.ok
+        rw [h1.lc, h0.lc] at h2
+        exact (h0.trans h1).trans h2
 end
 
 /-- the element list of a document, with tables whole and item kinds kept, is `blocksOf` -/
@@ -367,6 +400,10 @@ theorem LCB.toLC_enter (lc : LCB) (ord : Bool) : (lc.enter ord).toLC = lc.toLC.e
 theorem LCB.forItem_level (lc : LCB) : lc.forItem.level = lc.toLC.enter.level := by
   cases h : lc.inList <;> simp [LCB.forItem, LCB.toLC, LC.enter, h]
 
+theorem runBlocks_atoms (run : Str) : (runBlocks run).flatMap Block.atoms = runAtoms run := by
+  unfold runBlocks runAtoms
+  split <;> simp [Block.atoms]
+
 mutual
 theorem blocks_atoms (p : Pos → Dom → Bool) (w : Bool) :
     ∀ (t : Dom) (pos : Pos) (lc : LCB),
@@ -387,7 +424,7 @@ theorem blocks_atoms (p : Pos → Dom → Bool) (w : Bool) :
             simp only []
             split
             · simp [Block.atoms]
-            · exact blocksL_atoms p w kids _ lc
+            · exact blocksM_atoms p w kids _ lc []
           | list ord =>
             simp only []
             rw [blocksL_atoms p w kids _ _, LCB.toLC_enter]
@@ -422,6 +459,16 @@ theorem blocksLi_atoms (p : Pos → Dom → Bool) (w : Bool) :
       split
       · exact blocks_atoms p w k kp lc
       · rfl
+theorem blocksM_atoms (p : Pos → Dom → Bool) (w : Bool) :
+    ∀ (ts : List Dom) (kp : Pos) (lc : LCB) (run : Str),
+      (blocksM p w kp lc ts run).flatMap Block.atoms = atomsM p w kp lc.toLC ts run
+  | [], kp, lc, run => by simp only [blocksM, atomsM]; exact runBlocks_atoms run
+  | k :: ks, kp, lc, run => by
+      simp only [blocksM, atomsM]
+      split
+      · exact blocksM_atoms p w ks kp lc _
+      · rw [List.flatMap_append, List.flatMap_append, runBlocks_atoms, blocks_atoms p w k kp lc,
+          blocksM_atoms p w ks kp lc []]
 end
 
 end Tabula.Html
